@@ -186,7 +186,7 @@ End KlC.
 
 (* ----------------------------------------------------------------- ArcSwap *)
 Module AsC.
-  Import Coupe.Model.ArcSwap Coupe.Proofs.ArcSwapTerm.   (* ArcSwapTerm: step_rel only *)
+  Import Coupe.Model.ArcSwap Coupe.Proofs.ArcSwapTerm Coupe.Proofs.ArcSwapShare.   (* ArcSwapTerm: step_rel; ArcSwapShare: with_hr; nothing else *)
   Open Scope Z_scope.
 
   (* the fields of arc_swap's configuration, and the bound on the input ids, from the model *)
@@ -250,4 +250,106 @@ Module AsC.
     split; [exact (C05.C05_arcswap_completes cf p0 Hg' Hwf Hl' Hids st0 sch st Hi Hr)|].
     destruct (arcswap_ids headroom_quot g vw p0 T cap st0 sch st Hg Hl Hi Hr) as (L & R & _). split; assumption.
   Qed.
+
+  (* ---- the same for the share THE CODE computes (f64), from C05_f64_share_irrelevant ---- *)
+
+  Lemma run_app cf : forall s1 st s2,
+    run cf st (s1 ++ s2) = match run cf st s1 with Some st' => run cf st' s2 | None => None end.
+  Proof.
+    induction s1 as [|t r IH]; intros st s2; cbn [app run]; [reflexivity|].
+    destruct (step cf st t) as [st'|]; [apply IH|reflexivity].
+  Qed.
+
+  Lemma run_one cf st t : run cf st [t] = step cf st t.
+  Proof. cbn [run]. destruct (step cf st t); reflexivity. Qed.
+
+  (* src/work_share.rs: between 1 and `total` threads *)
+  Lemma work_share_tc total T : (1 <= total)%nat -> (1 <= T)%nat ->
+    (1 <= snd (work_share total T) <= total)%nat.
+  Proof.
+    intros Ht HT. unfold work_share. cbn [snd].
+    set (m := Nat.min total T). assert (Hm : (1 <= m <= total)%nat) by (unfold m; lia).
+    set (per := ((total + m - 1) / m)%nat).
+    assert (Hper : (1 <= per)%nat).
+    { unfold per. apply Nat.div_le_lower_bound; lia. }
+    split.
+    - apply Nat.div_le_lower_bound; lia.
+    - apply Nat.div_le_upper_bound; [lia|]. nia.
+  Qed.
+
+  Lemma config_with_hr hr hr' g vw p0 T cap :
+    config_of hr' g vw p0 T cap = with_hr (config_of hr g vw p0 T cap) hr'.
+  Proof. unfold config_of. destruct (work_share (length p0) T). reflexivity. Qed.
+
+  Lemma config_more hr g vw p0 T cap :
+    let cf := config_of hr g vw p0 T cap in
+    cf_vw cf = vw /\ cf_cap cf = cap /\ cf_hr cf = hr /\ cf_tc cf = snd (work_share (length p0) T).
+  Proof. unfold config_of. destruct (work_share (length p0) T). cbn. auto. Qed.
+
+  Section F64.
+    Variables (g : graph) (vw : list Z) (p0 : list nat) (T : nat) (cap : Z).
+    Hypothesis Hg : graph_ok g.
+    Hypothesis Hvw : length vw = length g.
+    Hypothesis Hl : length p0 = length g.
+    Hypothesis Hn : (1 <= length g)%nat.
+    Hypothesis HT : (1 <= T)%nat.
+    Hypothesis Hnn : Forall (fun x => 0 <= x) vw.
+    Hypothesis Hbig : Z.of_nat (length g) <= 2 ^ 53.
+    Hypothesis Hsum : Z.abs cap + sumZ vw < 2 ^ 53.
+
+    Let cq := config_of headroom_quot g vw p0 T cap.
+    Let cf := config_of headroom_f64 g vw p0 T cap.
+
+    (* same prologue, same run on every schedule *)
+    Lemma f64_same : init_state cf p0 = init_state cq p0
+      /\ forall st0 sch, init_state cq p0 = Some st0 -> run cf st0 sch = run cq st0 sch.
+    Proof.
+      unfold cf. rewrite (config_with_hr headroom_quot headroom_f64). fold cq.
+      destruct (config_fields headroom_quot g vw p0 T cap) as (E1 & E3). fold cq in E1, E3.
+      destruct (config_more headroom_quot g vw p0 T cap) as (E2 & E4 & E5 & E6). fold cq in E2, E4, E5, E6.
+      pose proof (work_share_tc (length p0) T ltac:(lia) HT) as Htc.
+      apply (C05.C05_f64_share_irrelevant cq p0 E5).
+      - rewrite E1; exact Hg.
+      - rewrite E1; exact Hl.
+      - rewrite E3; apply ids_below_part_count.
+      - rewrite E2; exact Hnn.
+      - rewrite E6. lia.
+      - rewrite E4, E2. exact Hsum.
+    Qed.
+
+    Lemma arcswap_runs_f64 :
+      init_state cf p0 <> None /\
+      forall st0 sch st, init_state cf p0 = Some st0 -> run cf st0 sch = Some st ->
+        (g_fin st = false ->
+           (forall t w, nth_opt (g_ws st) t = Some w -> w_pc w <> PDone -> step cf st t <> None)
+           /\ exists t st', step cf st t = Some st')
+        /\ Acc (step_rel cf) st
+        /\ (forall f : nat -> nat, exists m, run cf st (map f (seq 0 m)) = None)
+        /\ (exists sch' st', run cf st sch' = Some st' /\ g_fin st' = true)
+        /\ length (g_part st) = length p0 /\ Forall (fun x => (x < part_count p0)%nat) (g_part st).
+    Proof.
+      destruct f64_same as [Ei Er].
+      destruct (arcswap_runs g vw p0 T cap Hg Hvw Hl Hn HT) as [Qi Qr]. fold cq in Qi, Qr.
+      split; [rewrite Ei; exact Qi|].
+      intros st0 sch st Hi Hr. rewrite Ei in Hi. pose proof Hr as Hr'. rewrite (Er st0 sch Hi) in Hr'.
+      (* from a reachable state both machines run alike *)
+      assert (Same : forall s st1, run cq st0 s = Some st1 -> forall s2, run cf st1 s2 = run cq st1 s2).
+      { intros s st1 H1 s2. pose proof (Er st0 (s ++ s2) Hi) as E. rewrite !run_app in E.
+        rewrite (Er st0 s Hi), H1 in E. exact E. }
+      assert (SameStep : forall s st1, run cq st0 s = Some st1 -> forall t, step cf st1 t = step cq st1 t).
+      { intros s st1 H1 t. rewrite <- !run_one. exact (Same s st1 H1 [t]). }
+      destruct (Qr st0 sch st Hi Hr') as (P & A & B & Cc & L & R).
+      split.
+      { intros Hf. destruct (P Hf) as [P1 (t & st' & P2)]. split.
+        - intros t0 w Hw Hpc. rewrite (SameStep sch st Hr'). exact (P1 t0 w Hw Hpc).
+        - exists t, st'. rewrite (SameStep sch st Hr'). exact P2. }
+      split.
+      { clear P B Cc L R Hr. revert sch Hr'. induction A as [st _ IH]. intros sch Hr'.
+        constructor. intros st' [t Ht]. rewrite (SameStep sch st Hr') in Ht.
+        apply (IH st' (ex_intro _ t Ht) (sch ++ [t])). rewrite run_app, Hr', run_one. exact Ht. }
+      split; [intros f; destruct (B f) as [m Hm]; exists m; rewrite (Same sch st Hr'); exact Hm|].
+      split; [destruct Cc as (s' & st' & C1 & C2); exists s', st'; rewrite (Same sch st Hr'); split; assumption|].
+      split; assumption.
+    Qed.
+  End F64.
 End AsC.
